@@ -92,6 +92,16 @@ class PyNumpyIO:
         return self.data[:self.loc] if self.data is not None else None
 
 
+def strlen(b):
+    """C strlen of the buffer of a Python bytes object (which carries a terminating NUL after its last byte)"""
+    n = 0
+    for x in bytes(b):
+        if x == 0:
+            return n
+        n += 1
+    return n
+
+
 def memcpy_to(io, src, n):
     """memcpy(io.get_pointer(), src, n): unchecked in the C"""
     if n < 0 or io.loc + n > io.nbytes:
